@@ -5,7 +5,7 @@ from ..core.runner import Partial
 
 LEVEL = "exploration"
 RULE = ("all stack specs with <= K nodes over the grammar Base(n in 0..3) | Sub(child, idxs) | IdWrapper(child) | "
-        "IdWrapper2(child) | Cat(1..3 children) | BalancedCat(2 children) | shipped subset wrappers as index-map layers; "
+        "IdWrapper2(child) | Cat(1..3 children) | Cat(child, same child) | BalancedCat(2 children) | shipped subset wrappers as index-map layers; "
         "Sub index lists: every list of length <= 2 over [-L, L) plus identity/reversed/dup-first (full menu near the leaves, "
         "6-entry menu deeper); every stack is compared with a Python-list reference model on every index k in [-len, len), "
         "every item, the bulk accessors and (linear chains) every introspection query; distinct = distinct (stack spec, model) pairs "
@@ -113,6 +113,8 @@ def mlen(spec):
         return sum(mlen(c) for c in spec[1])
     if k == 'L':
         return None
+    if k == 'D':
+        return 2 * mlen(spec[1])
     if k == 'W':
         n = mlen(spec[2])
         return {"shuffle": n, "repeat2": 2 * n, "tail": max(0, n - 1)}[spec[1]]
@@ -123,7 +125,7 @@ def nodes(spec):
     k = spec[0]
     if k == 'B':
         return 1
-    if k in 'IJ':
+    if k in 'IJD':
         return 1 + nodes(spec[1])
     if k == 'S':
         return 1 + nodes(spec[1])
@@ -170,6 +172,7 @@ def stacks(k, maxfull=3):
                 for w in ("shuffle", "repeat2", "tail"):
                     out.append(('W', w, child))
             out.append(('C', (child,)))
+            out.append(('D', child))  # concat of the SAME object twice (shared part)
         # concats of 2..3 parts
         for parts in (2, 3):
             for sizes in _compositions(k - 1, parts):
@@ -228,6 +231,9 @@ def build(spec, env):
         else:
             w = L["SubsetWrapper"](o, start_index=1)
         return w, [m[int(i)] for i in w.indices], (None if ch is None else [w] + ch), root
+    if k == 'D':
+        o, m, ch, root = build(spec[1], env)
+        return L["KDConcatDataset"]([o, o]), m + m, None, None
     if k in 'CL':
         built = [build(c, env) for c in spec[1]]
         objs = [b[0] for b in built]
